@@ -75,11 +75,11 @@ def build_domtuple(doms):
 def gen_sub(rng, kinds=("RG", "U", "DOF"), maxlen=4, maxdim=2):
     k = rng.choice(kinds)
     if k == "RG":
-        nd = 1 if rng.random() < 0.6 else rng.randint(1, maxdim)
+        nd = 1 if rng.random() < 0.6 else rng.randint(min(2, maxdim), maxdim)
         return dict(kind="RG", shape=[rng.randint(1, maxlen) for _ in range(nd)],
                     dist=[rng.choice([0.5, 1.0, 2.0, 0.25, 4.0]) for _ in range(nd)], harmonic=rng.random() < 0.3)
     if k == "U":
-        nd = 1 if rng.random() < 0.7 else rng.randint(1, maxdim)
+        nd = 1 if rng.random() < 0.65 else rng.randint(min(2, maxdim), maxdim)
         return dict(kind="U", shape=[rng.randint(1, maxlen) for _ in range(nd)])
     if k == "DOF":
         n = rng.randint(1, maxlen)
@@ -199,7 +199,9 @@ def dense_of(op, mode, dtype, doubled=False, real_only_input=False, problems=Non
                 continue
             e = np.zeros(n, dtype=np.complex128)
             e[k] = 1j if part else 1
-            xin = from_flat(dom, e if not real_only_input else e.real, np.complex128 if not real_only_input else np.float64)
+            cdt = dtype if np.issubdtype(dtype, np.complexfloating) else np.complex128
+            rdt = np.float32 if cdt == np.complex64 else np.float64
+            xin = from_flat(dom, e if not real_only_input else e.real, cdt if not real_only_input else rdt)
             y = apply_checked(op, xin, mode, problems)
             M[:, 2 * k + part] = double(to_flat(y, tgt))
     return M
